@@ -968,8 +968,7 @@ Proof.
 Qed.
 
 (* methods are visited under a frame holding `this` and the class's type parameters, functions under an empty one *)
-Definition instance_frame (this : N) (t : toplevel) : list (N * N) :=
-  rev ((if tl_class t then [(this, tl_loc t)] else []) ++ tparam_binders (tl_tparams t)).
+Definition instance_frame (this : N) (t : toplevel) : list (N * N) := rev (instance_binders this t).
 
 Lemma members_context ms k F s :
   trace_res (F :: s) (visit_members ms k) =
@@ -981,6 +980,79 @@ Proof.
   - intros m. destruct (Bool.eqb _ _); [apply member_ok|reflexivity].
 Qed.
 
+Lemma trace_res_map_use {A} (a b : A -> N) s : forall l,
+  trace_res s (map (fun n => Use (a n) (b n) true) l) = map (fun n => (a n, b n, true, lookup (a n) s)) l /\
+  fold_left sstep (map (fun n => Use (a n) (b n) true) l) s = s.
+Proof. induction l as [|x l [IH1 IH2]]; cbn; auto. rewrite IH1, IH2. auto. Qed.
+
+Lemma typedef_ok d f s : trace_res (f :: s) (visit_typedef d) = lex_typedef (f ++ concat s) d.
+Proof.
+  destruct d as [fs|vs]; cbn [visit_typedef lex_typedef]; rewrite trace_res_app.
+  - destruct (trace_res_flat_map (fun x : N * N * annot => visit_annot (snd x)) (fun x : N * N * annot => lex_annot (f ++ concat s) (snd x)) (f :: s)
+                (fun x => stack_annot (snd x) _) (fun x => lex_annot_ok (snd x) (f :: s)) fs) as [E S].
+    rewrite E, S.
+    destruct (trace_res_map_def (fun x : N * N * annot => fst (fst x)) (fun x : N * N * annot => snd (fst x)) fs f s) as [E2 _].
+    rewrite E2. apply app_nil_r.
+  - destruct (trace_res_flat_map (fun x : N * N * annots => visit_annots (snd x)) (fun x : N * N * annots => lex_annots (f ++ concat s) (snd x)) (f :: s)
+                (fun x => stack_annots (snd x) _) (fun x => lex_annots_ok (snd x) (f :: s)) vs) as [E S].
+    rewrite E, S.
+    destruct (trace_res_map_def (fun x : N * N * annots => fst (fst x)) (fun x : N * N * annots => snd (fst x)) vs f s) as [E2 _].
+    rewrite E2. apply app_nil_r.
+Qed.
+
+Lemma wb_header t : wb true (visit_tparams (tl_tparams t) ++
+                             flat_map (fun n : N * N * annots => visit_annots (snd n)) (tl_ext t) ++
+                             match tl_def t with Some d => visit_typedef d | None => [] end).
+Proof.
+  apply wb_app; [apply wb_tparams|]. apply wb_app; [apply wb_flat_map; intros x; apply wb_annots|].
+  destruct (tl_def t); [apply wb_typedef|constructor].
+Qed.
+
+Lemma wb_instance this t : wb true ((if tl_class t then [Def this (tl_loc t)] else []) ++
+                                    map (fun tp => Def (tp_x tp) (tp_l tp)) (tl_tparams t) ++ visit_members (tl_members t) true).
+Proof. apply wb_app; [destruct (tl_class t); repeat constructor|]. apply wb_app; [apply wb_map_def|apply wb_members]. Qed.
+
+Lemma toplevel_ok this t f s :
+  trace_res (f :: s) (visit_toplevel this t) = lex_toplevel this (f ++ concat s) t.
+Proof.
+  unfold visit_toplevel, lex_toplevel.
+  destruct (trace_res_map_use (fun n : N * N * annots => fst (fst n)) (fun n : N * N * annots => snd (fst n)) (f :: s) (tl_ext t)) as [E0 S0].
+  rewrite trace_res_app, E0, S0. f_equal.
+  { apply map_ext. intros n. now rewrite lookup_concat. }
+  rewrite trace_res_scope, trace_res_app, trace_res_scope, (stack_scope _ _ (wb_header t)). f_equal.
+  { (* header *)
+    destruct (tparams_ok (tl_tparams t) [] ([] :: f :: s)) as [E1 S1]. cbn [concat app] in E1.
+    rewrite trace_res_app, E1, S1. f_equal.
+    set (s1 := (rev (tparam_binders (tl_tparams t)) ++ []) :: [] :: f :: s).
+    assert (Ec : concat s1 = bind (tparam_binders (tl_tparams t)) (f ++ concat s)).
+    { unfold s1, bind. cbn [concat app]. now rewrite app_nil_r. }
+    destruct (trace_res_flat_map (fun n : N * N * annots => visit_annots (snd n)) (fun n : N * N * annots => lex_annots (concat s1) (snd n)) s1
+                (fun n => stack_annots (snd n) s1) (fun n => lex_annots_ok (snd n) s1) (tl_ext t)) as [E2 S2].
+    rewrite trace_res_app, E2, S2, Ec. f_equal.
+    destruct (tl_def t) as [d|]; [|reflexivity]. unfold s1. rewrite typedef_ok. cbn [concat app]. unfold bind. now rewrite app_nil_r. }
+  rewrite trace_res_app, trace_res_scope, (stack_scope _ _ (wb_map_def mb_x mb_l (tl_members t))).
+  destruct (trace_res_map_def mb_x mb_l (tl_members t) [] ([] :: f :: s)) as [E3 _]. rewrite E3. cbn [app].
+  rewrite trace_res_app, trace_res_scope, (stack_scope _ _ (wb_instance this t)), trace_res_scope.
+  destruct (members_context (tl_members t) false [] ([] :: f :: s)) as [E4 _]. rewrite E4. cbn [concat app]. f_equal.
+  set (pre := (if tl_class t then [Def this (tl_loc t)] else []) ++ map (fun tp => Def (tp_x tp) (tp_l tp)) (tl_tparams t)).
+  assert (Sp : fold_left sstep pre ([] :: [] :: f :: s) = instance_frame this t :: [] :: f :: s /\
+               trace_res ([] :: [] :: f :: s) pre = []).
+  { unfold pre, instance_frame, instance_binders. rewrite fold_left_app, trace_res_app.
+    destruct (tl_class t); cbn [fold_left sstep push_def trace_res app].
+    - destruct (trace_res_map_def tp_x tp_l (tl_tparams t) [(this, tl_loc t)] ([] :: f :: s)) as [E S].
+      rewrite E, S. split; reflexivity.
+    - destruct (trace_res_map_def tp_x tp_l (tl_tparams t) [] ([] :: f :: s)) as [E S].
+      rewrite E, S, app_nil_r. split; reflexivity. }
+  destruct Sp as [Sp Ep].
+  change ((if tl_class t then [Def this (tl_loc t)] else []) ++
+          map (fun tp => Def (tp_x tp) (tp_l tp)) (tl_tparams t) ++ visit_members (tl_members t) true)
+    with ((if tl_class t then [Def this (tl_loc t)] else []) ++
+          (map (fun tp => Def (tp_x tp) (tp_l tp)) (tl_tparams t) ++ visit_members (tl_members t) true)).
+  rewrite app_assoc. fold pre. rewrite trace_res_app, Sp, Ep.
+  destruct (members_context (tl_members t) true (instance_frame this t) ([] :: f :: s)) as [E5 _]. rewrite E5.
+  cbn [concat app]. reflexivity.
+Qed.
+
 Lemma toplevel_context this t f s :
   exists header,
     trace_res (f :: s) (visit_toplevel this t) =
@@ -988,39 +1060,29 @@ Lemma toplevel_context this t f s :
       flat_map (fun m => if Bool.eqb (mb_method m) true then lex_member (instance_frame this t ++ f ++ concat s) m else [])
                (tl_members t) ++
       flat_map (fun m => if Bool.eqb (mb_method m) false then lex_member (f ++ concat s) m else []) (tl_members t).
+Proof. eexists. rewrite toplevel_ok. unfold lex_toplevel. rewrite app_assoc. reflexivity. Qed.
+
+(* the whole module *)
+Lemma module_ok this m : trace_res [[]] (visit_module this m) = lex_module this m.
 Proof.
-  unfold visit_toplevel.
-  eexists. rewrite trace_res_app, trace_res_scope. rewrite <- app_assoc. f_equal.
-  rewrite trace_res_app, <- app_assoc. f_equal.
-  assert (Hs : forall u, fold_left sstep (map (fun n : N * N * annots => Use (fst (fst n)) (snd (fst n)) true) (tl_ext t)) u = u).
-  { intros u. apply wb_stack_any. induction (tl_ext t); cbn; constructor; auto. }
-  rewrite Hs. rewrite stack_scope.
-  2:{ apply wb_app; [apply wb_tparams|]. apply wb_app; [apply wb_flat_map; intros x; apply wb_annots|].
-      destruct (tl_def t); [apply wb_typedef|constructor]. }
-  rewrite trace_res_app, <- app_assoc. f_equal.
-  rewrite stack_scope by apply wb_map_def.
-  rewrite trace_res_app, trace_res_scope. rewrite stack_scope.
-  2:{ apply wb_app; [destruct (tl_class t); repeat constructor|]. apply wb_app; [apply wb_map_def|apply wb_members]. }
-  rewrite trace_res_scope.
-  destruct (members_context (tl_members t) false [] ([] :: f :: s)) as [E4 _]. rewrite E4. cbn [concat app].
-  set (pre := (if tl_class t then [Def this (tl_loc t)] else []) ++ map (fun tp => Def (tp_x tp) (tp_l tp)) (tl_tparams t)).
-  assert (Hpre : trace_res ([] :: [] :: f :: s) (pre ++ visit_members (tl_members t) true) =
-                 flat_map (fun m => if Bool.eqb (mb_method m) true then lex_member (instance_frame this t ++ f ++ concat s) m else [])
-                   (tl_members t)).
-  { rewrite trace_res_app.
-    assert (Sp : fold_left sstep pre ([] :: [] :: f :: s) = instance_frame this t :: [] :: f :: s /\
-                 trace_res ([] :: [] :: f :: s) pre = []).
-    { unfold pre, instance_frame. rewrite fold_left_app, trace_res_app.
-      destruct (tl_class t); cbn [fold_left sstep push_def trace_res app].
-      - destruct (trace_res_map_def tp_x tp_l (tl_tparams t) [(this, tl_loc t)] ([] :: f :: s)) as [E S].
-        rewrite E, S. split; reflexivity.
-      - destruct (trace_res_map_def tp_x tp_l (tl_tparams t) [] ([] :: f :: s)) as [E S].
-        rewrite E, S, app_nil_r. split; reflexivity. }
-    destruct Sp as [Sp Ep]. rewrite Sp, Ep.
-    destruct (members_context (tl_members t) true (instance_frame this t) ([] :: f :: s)) as [E3 _]. rewrite E3. reflexivity. }
-  unfold pre in Hpre. rewrite <- app_assoc in Hpre.
-  rewrite Hpre. symmetry. apply app_nil_l.
+  unfold visit_module, lex_module, module_binders.
+  destruct (trace_res_map_def (fun i : N * N => fst i) (fun i : N * N => snd i) (md_imports m) [] []) as [E1 S1].
+  rewrite trace_res_app, E1, S1.
+  destruct (trace_res_map_def tl_x tl_l (md_tops m) (rev (map (fun x : N * N => (fst x, snd x)) (md_imports m)) ++ []) []) as [E2 S2].
+  rewrite trace_res_app, E2, S2. cbn [app].
+  set (F := rev (map (fun x => (tl_x x, tl_l x)) (md_tops m)) ++ rev (map (fun x : N * N => (fst x, snd x)) (md_imports m)) ++ []).
+  assert (EF : F = bind (md_imports m ++ map (fun t => (tl_x t, tl_l t)) (md_tops m)) []).
+  { unfold F, bind. rewrite !app_nil_r, rev_app_distr. f_equal. f_equal.
+    rewrite <- (map_id (md_imports m)) at 2. apply map_ext. intros [x l]. reflexivity. }
+  destruct (trace_res_flat_map (visit_toplevel this) (lex_toplevel this F) [F]
+              (fun t => wb_stack_any _ (wb_toplevel false this t) _)
+              (fun t => eq_trans (toplevel_ok this t F []) (f_equal (fun g => lex_toplevel this g t) (app_nil_r F))) (md_tops m)) as [E3 _].
+  rewrite E3, EF. reflexivity.
 Qed.
+
+Lemma resolve_lexical this m u :
+  resolve this m u = assoc u (rev (res_uses (lex_module this m))).
+Proof. rewrite resolve_trace_res, module_ok. reflexivity. Qed.
 
 (* ---- forms used by Props.v ---- *)
 Lemma match_arm_scope s m p body rest :
